@@ -69,6 +69,8 @@ func checkC19(r *harness.Run) harness.Coverage {
 		{"a[*].b", "valid"}, {"`null`", "valid"}, {"`true`", "valid"}, {"`1.5`", "valid"}, {"'raw <&> string'", "valid"}, {"`[]`", "valid"}, {"`{}`", "valid"},
 		{"`{\"k\": [1, {\"n\": null}], \"s\": \"é\\n\"}`", "valid"}, {"keys(@)", "valid-may-fail"}, {"sort_by(@, &a)", "valid-may-fail"}, {"to_string(@)", "valid"}, {"a || b", "valid"}, {"*", "valid"},
 		{"avg(@)", "valid-may-fail"}, {"sum(@)", "valid-may-fail"}, {"keys(@)[0]", "valid-may-fail"}, {"'100%'", "valid"}, {"join('%', keys(@))", "valid-may-fail"}, {"to_number(@)", "valid"}, {" a ", "valid"}, {"\"a\"", "valid"},
+		// results that are false-like or empty at the top level (the exit status says "evaluated", not "truthy")
+		{"`false`", "valid"}, {"a == b", "valid"}, {"!@", "valid"}, {"`0`", "valid"}, {"''", "valid"}, {"a && b", "valid"}, {"@ == `false`", "valid"}, {"`\"x\\u0001y\\u007f\\u2028\"`", "valid"},
 		{"", "syntax"}, {"a.", "syntax"}, {"a[", "syntax"}, {"#", "syntax"}, {"a = b", "syntax"}, {"'unclosed", "syntax"}, {"`{bad`", "syntax"}, {"a b", "syntax"}, {"[0", "syntax"}, {"@(a)", "syntax"}, {"f(a b)", "syntax"},
 		{"a\u0080", "syntax"}, {"\xff", "syntax"}, {"a | ", "syntax"}, {"{a:", "syntax"},
 		{"nosuch(@)", "eval-error"}, {"abs('x')", "eval-error"}, {"length(@, @)", "eval-error"}, {"@[::0] || abs('x')", "eval-error"}, {"[a, nosuch(b)]", "eval-error"}, {"merge('a')", "eval-error"},
@@ -84,6 +86,9 @@ func checkC19(r *harness.Run) harness.Coverage {
 		{`{"a": 1}` + strings.Repeat(" ", 32768-8), "valid"}, {strings.Repeat(" ", 65536-4) + `[1]` + "\n", "valid"}, {`[` + strings.Repeat("1,", 16383) + `1]`, "valid"},
 		{`9223372036854775808`, "valid"}, {`[4611686018427387904, 4611686018427387904]`, "valid"}, {`{"a": "100%", "b": "a%20b %s %d", "100%": 1}`, "valid"},
 		{"\xef\xbb\xbf" + `{"a": 1}`, "invalid"}, {`{"a": 1}` + "\xef\xbb\xbf", "invalid"},
+		{`false`, "valid"}, {`0`, "valid"}, {`""`, "valid"}, {"\t\r\n {\"a\": 1}\r\n\t", "valid"},
+		// characters that Go's unicode.IsSpace / bytes.TrimSpace accept but JSON does not
+		{`{"a": 1}` + "\f", "invalid"}, {"\v" + `{"a": 1}`, "invalid"}, {`{"a": 1}` + "\u00a0\n", "invalid"}, {"\u0085" + `[1]`, "invalid"}, {`{"a": 1}` + "\x00", "invalid"},
 		{``, "invalid"}, {"  \n", "invalid"}, {`{"a": `, "invalid"}, {`{"a": 1} x`, "invalid"}, {`{"a": 1} {"a": 2}`, "invalid"}, {`{'a': 1}`, "invalid"}, {`[1, 2,]`, "invalid"}, {"\xff\xfe", "invalid"}, {`"` + "\xff" + `"`, "as-go-decodes"}, {`1e999`, "as-go-decodes"}, {`nul`, "invalid"},
 	}
 	if !r.Thorough() {
